@@ -69,6 +69,7 @@ __all__ = [
     "is_annotated",
     "get_type_annotations",
     "is_literal",
+    "literal_repr",
     "is_local_type_name",
     "get_literal_values",
     "is_self",
@@ -166,6 +167,13 @@ def get_literal_values(typ: Type) -> tuple[Any, ...]:
     return tuple(result)
 
 
+def literal_repr(value: Any) -> str:
+    for base in (bool, int, str, bytes):
+        if isinstance(value, base):
+            return base.__repr__(value)
+    return repr(value)
+
+
 def _get_literal_values_str(typ: Type, short: bool) -> str:
     values_str = []
     for value in get_literal_values(typ):
@@ -183,7 +191,7 @@ def _get_literal_values_str(typ: Type, short: bool) -> str:
             value,
             (int, str, bytes, bool, NoneType),  # type: ignore
         ):
-            values_str.append(repr(value))
+            values_str.append(literal_repr(value))
     return ", ".join(values_str)
 
 
